@@ -242,6 +242,7 @@ func (w *world) lockProbe(ctx string) bool {
 	w.r.Violationf("lock-held-at-quiescence", map[string]interface{}{"after": ctx, "batch": w.b, "goroutines": d},
 		"a server mutex stayed locked over 2000 probes (10 s) while no input was in flight (main free=%v, servers free=%v) after: %s", mf, sf, ctx)
 	w.failed = true
+	w.closeDead = true // Close() needs the same mutex: do not try
 	return false
 }
 
